@@ -327,6 +327,23 @@ func (Engine) Generate(prop string, r *kit.Rand, tier string) *kit.Scenario[Conf
 		}
 		c.Faces = append(c.Faces, f)
 	}
+	if len(c.Faces) >= 2 && r.Chance(0.2) {
+		// a router that has been up for a while: face ids far apart, some of them congruent modulo a power of two
+		for k, nk := 0, r.Range(1, 2); k < nk; k++ {
+			i := r.Range(1, len(c.Faces)-1)
+			j := r.Intn(i)
+			if c.Faces[i].ID < 256 {
+				c.Faces[i].ID = c.Faces[j].ID%256 + uint64(kit.Pick(r, []int{256, 512, 768, 1024}))
+			}
+		}
+		seen := map[uint64]bool{}
+		for i := range c.Faces { // ids stay distinct
+			for seen[c.Faces[i].ID] {
+				c.Faces[i].ID += 3
+			}
+			seen[c.Faces[i].ID] = true
+		}
+	}
 	if !anyLocal {
 		c.Faces[0].Scope = "local"
 	}
